@@ -913,7 +913,7 @@ PROOF_MODULES = PROOF_MODULES + ['Compute.Lemmas.SrcLoops']
 
 # --- deep theorems (Rounding5: float-level bounds in the standard model, wired by the lead)
 PROOF_MODULES = PROOF_MODULES + [m for m in ['Compute.Lemmas.Rounding5', 'Compute.Props.Rounding5'] if m not in PROOF_MODULES]
-REQUIRED_THEOREMS = REQUIRED_THEOREMS + ['Cv.Rounding5.trapz_error', 'Cv.Rounding5.trapz_error_rel', 'Cv.Rounding5.trapz_node_error', 'Cv.Rounding5.trapezoid_error', 'Cv.Rounding5.trapezoidDx_error', 'Cv.Rounding5.quad5_error', 'Cv.Rounding5.quad5_error_rel', 'Cv.Rounding5.romberg00_error', 'Cv.Rounding5.rombergCol0Next_error', 'Cv.Rounding5.trapz_pert', 'Cv.Rounding5.quad5_pert', 'Cv.Rounding5.f64_trapz_note']
+REQUIRED_THEOREMS = REQUIRED_THEOREMS + ['Cv.Rounding5.trapz_error', 'Cv.Rounding5.trapz_error_rel', 'Cv.Rounding5.trapz_node_error', 'Cv.Rounding5.trapezoid_error', 'Cv.Rounding5.trapezoidDx_error', 'Cv.Rounding5.quad5_error', 'Cv.Rounding5.quad5_error_rel', 'Cv.Rounding5.romberg00_error', 'Cv.Rounding5.rombergCol0Next_error', 'Cv.Rounding5.trapz_pert', 'Cv.Rounding5.quad5_pert', 'Cv.Rounding5.stdmodel_trapz_note']
 NOT_PROVED = [("rounding of the integrand and the discretisation ('up to rounding' relative to the exact integral) is decided by the oracle; the accumulation error of trapz / trapezoid / quad5 / Romberg r[0][0] and each first-column step IS proved in the standard model (Props/Rounding5): computed = sum w_i f(x_i)(1+th_i) over the rule's computed nodes, |th_i| <= gamma_k with k = max(n+4,8) / (n-1)+5 / L+7 (=12) / 5 / max(3,2^(n-1)+1)+1, nodes within gamma_6(|a|+k|h|), and with a j-fold relatively accurate integrand gamma_(k+j) against sum w_i F(x_i); trusted link: IEEE binary64 obeys fl(a op b) = (a op b)(1+d), |d| <= 2^-53, barring overflow/underflow" if str(x).startswith('floating-point rounding (') else x) for x in NOT_PROVED]
 
 # --- review pass (review-b C07: A1, B1, B2, B3, C1-C7): new theorem module and ONE consistent set of claim texts
@@ -966,3 +966,6 @@ ASSUMPTIONS = [
     "executor refuses such lines, so they are never compared. `none` for nmax = 0 IS the panic (index into an empty tableau)",
     "closures are pure functions of x (the model interleaves column 0 with the sweep)",
 ]
+
+# --- review repairs in the Rounding layer (renamed stdmodel_* theorems, underflow-aware variants, genuine FlModel instance; wired by the lead)
+NOT_PROVED = list(NOT_PROVED) + ['theorems named stdmodel_* hold in the idealised standard model (fl(x) = x(1+d) for every operation, library functions with relative error <= u_f for every argument) at u = 2^-53; they describe binary64 only where nothing overflows or underflows (for exp: arguments in [-708.39, 709.78]); outside that range computed values may be exactly 0 or inf']
